@@ -38,6 +38,10 @@ var optScenarios = []optScenario{
 	{"file-and-copy-loader-without-output-path", map[string]interface{}{"Loader": map[string]string{".png": "file", ".txt": "copy"}, "Outdir": ""}, func() api.BuildOptions {
 		return api.BuildOptions{Loader: map[string]api.Loader{".png": api.LoaderFile, ".txt": api.LoaderCopy}}
 	}},
+	// unresolvable injected paths are resolved by one goroutine each (finding C08-G3)
+	{"missing-inject-paths", map[string]interface{}{"Bundle": true, "Inject": []string{"./absentA.js", "./absentB.js", "./absentC.js"}}, func() api.BuildOptions {
+		return api.BuildOptions{Outdir: "out", Bundle: true, Inject: []string{"./absentA.js", "./absentB.js", "./absentC.js"}}
+	}},
 	// valid option maps with several entries: the OUTPUT must not depend on their iteration order either
 	{"valid-maps", map[string]interface{}{"Define": 4, "Loader": 3, "Supported": 3, "Banner": 2, "Footer": 2, "LogOverride": 3, "Alias": 2}, func() api.BuildOptions {
 		return api.BuildOptions{Outdir: "out", Bundle: true, Metafile: true,
@@ -78,10 +82,17 @@ func runOptionScenarios(st *Stats, tmp string, reps int) {
 				failed = true
 				section, want, got := firstDiff(first, out)
 				st.Fail("nondeterministic-build", map[string]interface{}{
-					"scenario": "option-validation-error-order/" + sc.name, "entry": "in.js", "options": sc.desc,
+					"scenario": scenarioFamily(sc.name) + "/" + sc.name, "entry": "in.js", "options": sc.desc,
 					"differs_in": section, "repetition": i,
 				}, got, want)
 			}
 		}
 	}
+}
+
+func scenarioFamily(name string) string {
+	if name == "missing-inject-paths" {
+		return "parallel-locationless-errors"
+	}
+	return "option-validation-error-order"
 }
